@@ -63,8 +63,11 @@ func indexLayout(s *tspace.Schema, ops []ref.Op) string {
 // (after each operation, before commit processing) holds a duplicate.
 func transientDup(pre *ref.DB, ops []ref.Op) bool {
 	for n := 1; n < len(ops); n++ {
-		out := pre.Transact(cloneOps(ops[:n]))
-		if out.CommitErr == "constraint violation" && strings.Contains(out.CommitWhy, "index") {
+		out := pre.ExecOnly(cloneOps(ops[:n]))
+		if out.Failed() || out.OutOfDom != "" || out.Post == nil {
+			return false
+		}
+		if len(dupIndexes(out.Post)) > 0 {
 			return true
 		}
 	}
